@@ -8,7 +8,7 @@ CONSTANT Triples   \* also emit queries with three state sets
 
 EvJson(i) == [id |-> i, type |-> E[i].type, sender |-> E[i].sender, skey |-> E[i].skey, membership |-> E[i].membership,
               plu |-> E[i].plu, jr |-> E[i].jr, prev |-> E[i].prev, auth |-> E[i].auth, depth |-> E[i].depth,
-              ts |-> E[i].ts, idr |-> E[i].idr, sha |-> E[i].sha, addl |-> E[i].addl]
+              ts |-> E[i].ts, idr |-> E[i].idr, sha |-> E[i].sha, addl |-> E[i].addl, pud |-> E[i].pud]
 
 \* free events that some other event cites as an auth event: candidates for the caller's rejected-event oracle
 RejectCandidates == {x \in DOMAIN E : x > Base /\ \E y \in DOMAIN E : x \in E[y].auth}
@@ -21,11 +21,13 @@ Query(tips, rej) ==
     IF StateRes(Ver) = "v1"
     THEN [ver |-> Ver, events |-> [i \in DOMAIN E |-> EvJson(i)], sets |-> Sets, tips |-> tips, rejected |-> rej, dishonest |-> Dishonest,
           result |-> ResultV1(ER, Ver, Sets), unconflicted |-> UnconflictedV1(ER, Sets), power |-> <<>>, others |-> <<>>,
-          authdiff |-> {}, subgraph |-> {}]
+          authdiff |-> {}, subgraph |-> {}, spower |-> <<>>]
     ELSE LET st == StagesV2(ER, Ver, Sets) IN
          [ver |-> Ver, events |-> [i \in DOMAIN E |-> EvJson(i)], sets |-> Sets, tips |-> tips, rejected |-> rej, dishonest |-> Dishonest,
           result |-> st.result, unconflicted |-> st.unconflicted, power |-> st.power, others |-> st.others,
-          authdiff |-> st.authdiff, subgraph |-> st.subgraph]
+          authdiff |-> st.authdiff, subgraph |-> st.subgraph,
+          \* the sender power (rank) each event of the power order was sorted with (R2): diagnosis only
+          spower |-> [k \in DOMAIN st.power |-> SenderPower(ER, Ver, st.power[k])]]
 
 \* one evaluation of the stages per query: check the definition's properties and emit the query
 QueryOK(tips, rej) ==
@@ -51,6 +53,7 @@ StalePairs ==
     ELSE {}
 
 Emit == /\ HistoryNoEsc
+        /\ PowerSenderOK
         /\ \A p \in ForkPairs \cup StalePairs :
               /\ QueryOK(p, {})
               /\ (StateRes(Ver) # "v1" => \A x \in RejectCandidates : QueryOK(p, {x}))
